@@ -14,16 +14,28 @@ package conf
 // op lines
 //   type <T>                                   => ok
 //   load <style> <doc> <doc2|->                => jy=.. jt=.. LJ=.. LY=.. LT=.. RJ=.. RY=.. RT=.. U=.. S=..
+//   munm <optbits> <style> <doc>               => MJB=.. MJR=.. MYB=.. MYR=.. MTB=.. MTR=.. [S=..]
+//        mapping.Unmarshal{Json,Yaml,Toml}{Bytes,Reader} with the options of optbits
+//        (1 WithCanonicalKeyFunc(strings.ToLower), 2 WithStringValues, 4 WithFromArray, 8 WithOpaqueKeys);
+//        S = encoding/json on the JSON rendering (optbits 0 only)
 //   file <ext> <env 0/1> <pre> <var> <val> <post>  => ok:"..." | err
+//   cload <style> <doc>                        => CJ=det:<res>|nondet CY=.. CT=..   (every loader up to 200 times: documents
+//        whose keys collide up to case; Go's map order must not decide)
+//   f32 <lit>                                  => U=.. L=.. S=..  ({"x":<lit>} into struct{X float32 `json:"x"`})
+//   fload <ext> <env 0/1> <api> <style> <doc>  => <res> [M=same|diff]   conf.Load / LoadConfig (/ MustLoad when Load
+//        succeeds) on a file conf<ext> holding the rendering of <doc> in the format of the extension
+//   filldef                                    => <res>   conf.FillDefault on a fresh value
 //
 // type syntax:  b i8 i16 i32 i64 i u8 u16 u32 u64 u f32 f64 s | *T | @T (slice) | %T (map[string]T)
-//               | {Name:key:flags=T;...}   flags: o optional, e embedded, - none
+//               | {Name:key:flags=T;...}   flags: o optional, e embedded, i inherit, s string, - none, then
+//                 !d<default> !v<env var> !r<range> !p<opt>/<opt>..
 // doc syntax:   restricted JSON without blanks (strings over [A-Za-z0-9_.:-], no escapes)
 
 import (
 	"bytes"
 	"encoding/json"
 	"fmt"
+	"io"
 	"math/big"
 	"os"
 	"path/filepath"
@@ -43,7 +55,46 @@ import (
 type c17Field struct {
 	name, key          string
 	optional, embedded bool
+	inherit, str       bool     // ,inherit  ,string
+	dflt, env, rng     string   // ,default=  ,env=  ,range=
+	opts               []string // ,options=a|b
 	ty                 *c17Ty
+}
+
+func (f *c17Field) flags() string {
+	fl := ""
+	if f.optional {
+		fl += "o"
+	}
+	if f.embedded {
+		fl += "e"
+	}
+	if f.inherit {
+		fl += "i"
+	}
+	if f.str {
+		fl += "s"
+	}
+	if fl == "" {
+		fl = "-"
+	}
+	if f.dflt != "" {
+		fl += "!d" + f.dflt
+	}
+	if f.env != "" {
+		fl += "!v" + f.env
+	}
+	if f.rng != "" {
+		fl += "!r" + f.rng
+	}
+	if len(f.opts) > 0 {
+		fl += "!p" + strings.Join(f.opts, "/")
+	}
+	return fl
+}
+
+func (f *c17Field) hasExt() bool {
+	return f.inherit || f.str || f.dflt != "" || f.env != "" || f.rng != "" || len(f.opts) > 0
 }
 
 type c17Ty struct {
@@ -59,17 +110,7 @@ func (t *c17Ty) enc() string {
 	case "{":
 		var parts []string
 		for _, f := range t.fields {
-			fl := ""
-			if f.optional {
-				fl += "o"
-			}
-			if f.embedded {
-				fl += "e"
-			}
-			if fl == "" {
-				fl = "-"
-			}
-			parts = append(parts, f.name+":"+f.key+":"+fl+"="+f.ty.enc())
+			parts = append(parts, f.name+":"+f.key+":"+f.flags()+"="+f.ty.enc())
 		}
 		return "{" + strings.Join(parts, ";") + "}"
 	}
@@ -125,8 +166,28 @@ func (p *c17Parser) ty() *c17Ty {
 			p.expect(':')
 			fl := p.until("=")
 			p.expect('=')
-			f.optional = strings.Contains(fl, "o")
-			f.embedded = strings.Contains(fl, "e")
+			segs := strings.Split(fl, "!")
+			f.optional = strings.Contains(segs[0], "o")
+			f.embedded = strings.Contains(segs[0], "e")
+			f.inherit = strings.Contains(segs[0], "i")
+			f.str = strings.Contains(segs[0], "s")
+			for _, sg := range segs[1:] {
+				if sg == "" {
+					panic("c17: empty flag segment in " + p.s)
+				}
+				switch sg[0] {
+				case 'd':
+					f.dflt = sg[1:]
+				case 'v':
+					f.env = sg[1:]
+				case 'r':
+					f.rng = sg[1:]
+				case 'p':
+					f.opts = strings.Split(sg[1:], "/")
+				default:
+					panic("c17: bad flag segment in " + p.s)
+				}
+			}
 			f.ty = p.ty()
 			t.fields = append(t.fields, f)
 			if p.peek() == ';' {
@@ -166,10 +227,28 @@ func (t *c17Ty) rtype() reflect.Type {
 		for _, f := range t.fields {
 			sf := reflect.StructField{Name: f.name, Type: f.ty.rtype(), Anonymous: f.embedded}
 			tag := ""
-			if f.key != "" || f.optional {
+			if f.key != "" || f.optional || f.hasExt() {
 				tag = f.key
 				if f.optional {
 					tag += ",optional"
+				}
+				if f.dflt != "" {
+					tag += ",default=" + f.dflt
+				}
+				if len(f.opts) > 0 {
+					tag += ",options=" + strings.Join(f.opts, "|")
+				}
+				if f.rng != "" {
+					tag += ",range=" + f.rng
+				}
+				if f.env != "" {
+					tag += ",env=" + f.env
+				}
+				if f.inherit {
+					tag += ",inherit"
+				}
+				if f.str {
+					tag += ",string"
 				}
 				sf.Tag = reflect.StructTag(`json:"` + tag + `"`)
 			}
@@ -325,6 +404,23 @@ func (d *c17Doc) isComposite() bool {
 	return (d.kind == "arr" && len(d.arr) > 0) || (d.kind == "obj" && len(d.keys) > 0)
 }
 
+// c17YamlKey: with style bit 2 a key that reads as a YAML number or boolean is written unquoted, so that yaml.v2
+// decodes it to a non-string key (convertKeyToString brings it back through lang.Repr).
+func c17YamlKey(k string, style int) string {
+	if style&2 != 0 {
+		if k == "true" || k == "false" {
+			return k
+		}
+		if _, err := strconv.ParseInt(k, 10, 64); err == nil && strconv.Itoa(int(verifh.Atoi64(k))) == k {
+			return k
+		}
+		if k == "1.5" || k == "0.25" {
+			return k
+		}
+	}
+	return `"` + k + `"`
+}
+
 func (d *c17Doc) yamlFlow(b *strings.Builder) {
 	switch d.kind {
 	case "arr":
@@ -357,7 +453,7 @@ func (d *c17Doc) yamlBlock(b *strings.Builder, ind int, style int) {
 	case d.kind == "obj" && len(d.keys) > 0 && style&1 != 0:
 		for i, k := range d.keys {
 			v := d.vals[i]
-			b.WriteString(pad + `"` + k + `":`)
+			b.WriteString(pad + c17YamlKey(k, style) + `:`)
 			if v.isComposite() && ((v.kind == "obj" && style&1 != 0) || (v.kind == "arr" && style&2 != 0)) {
 				b.WriteByte('\n')
 				v.yamlBlock(b, ind+2, style)
@@ -606,7 +702,7 @@ var c17Names = []string{"Name", "Age", "URL", "MaxConns", "Host", "Port", "Tags"
 var c17Words = []string{"a", "b", "alpha", "Beta", "x1", "node-1", "v2.0", "on", "yes", "12", "7", "true", "0", "1",
 	"1.5", "Zed", "UPPER", "mixedCase", "k_v", "", "-3", "300", "abc"}
 
-var c17MapKeys = []string{"a", "B", "key1", "Key2", "UPPER", "x-y", "k_v", "name", "Port", "id"}
+var c17MapKeys = []string{"a", "B", "key1", "Key2", "UPPER", "x-y", "k_v", "name", "Port", "id", "12", "7", "true", "1.5", "-3"}
 
 func c17KeyVariants(name string) []string {
 	lo := strings.ToLower(name)
@@ -621,11 +717,24 @@ func c17KeyVariants(name string) []string {
 	return []string{lo, camel, snake, name, strings.ToUpper(name)}
 }
 
+// c17Mode shapes the documents towards what an unmarshaller option makes meaningful.
+type c17Mode struct {
+	lowerKeys  bool // struct keys mostly lower-cased (WithCanonicalKeyFunc(strings.ToLower))
+	strScalars bool // numbers / booleans often written as strings (WithStringValues)
+	wrapArr    bool // values of non-slice fields often wrapped in an array (WithFromArray)
+	dotLiteral int  // a dotted tag key a.b: percentage written as the literal key "a.b" (else nested {"a":{"b":..}})
+}
+
 type c17Gen struct {
 	r     *verifh.Rng
 	plain bool            // only plain name tags, no optional / embedded, no degenerate structs
+	dots  bool            // dotted tag keys (a.b) may be generated
+	ext   bool            // tag options default= options= range= env= inherit string may be generated
 	used  map[string]bool // lower-cased keys used in the struct being built (flattened through embedding)
+	mode  c17Mode
 }
+
+var c17DotGroups = []string{"grp", "Sec", "opt"}
 
 func (g *c17Gen) prim() *c17Ty {
 	r := g.r
@@ -734,6 +843,16 @@ func (g *c17Gen) structTy(depth int, shared bool) *c17Ty {
 		if r.Chance(3, 5) {
 			key = r.PickS(c17KeyVariants(name)...)
 		}
+		if g.dots && r.Chance(1, 7) {
+			k2 := key
+			if k2 == "" {
+				k2 = name
+			}
+			key = r.PickS(c17DotGroups...) + "." + k2
+			if r.Chance(1, 12) {
+				key = r.PickS("grp..", ".", "grp.sub.") + k2 // empty segments are dropped by FieldsFunc
+			}
+		}
 		eff := key
 		if eff == "" {
 			eff = name
@@ -746,6 +865,9 @@ func (g *c17Gen) structTy(depth int, shared bool) *c17Ty {
 		if !g.plain && r.Chance(1, 4) {
 			f.optional = true
 		}
+		if !g.plain && g.ext && r.Chance(2, 5) {
+			g.extOptions(&f)
+		}
 		t.fields = append(t.fields, f)
 	}
 	if g.plain && len(t.fields) == 0 {
@@ -755,6 +877,63 @@ func (g *c17Gen) structTy(depth int, shared bool) *c17Ty {
 		g.used = saved
 	}
 	return t
+}
+
+var c17EnvVals = []string{"5", "42", "300", "-3", "1.5", "true", "T", "abc", "a", "0", "70000"}
+
+// extOptions adds tag options (default / options / range / env / string / inherit) to a field.
+func (g *c17Gen) extOptions(f *c17Field) {
+	r := g.r
+	base := f.ty
+	if base.kind == "*" {
+		base = base.elem
+	}
+	isPrim := base.kind != "@" && base.kind != "%" && base.kind != "{" && base.kind != "*"
+	if r.Chance(1, 6) {
+		f.inherit = true
+	}
+	if !isPrim {
+		if r.Chance(1, 3) {
+			f.inherit = true
+		}
+		if r.Chance(1, 6) {
+			f.env = "C17E_" + r.PickS(c17EnvVals...)
+		}
+		return
+	}
+	k := base.kind
+	numeric := k != "s" && k != "b"
+	if r.Chance(1, 3) {
+		switch {
+		case k == "s":
+			f.dflt = r.PickS("a", "dflt", "alpha", "12")
+		case k == "b":
+			f.dflt = r.PickS("true", "false", "1", "TRUE", "yes")
+		case k[0] == 'f':
+			f.dflt = r.PickS("1.5", "0", "-2.25", "7", "x")
+		default:
+			f.dflt = r.PickS("0", "7", "42", "300", "-1", "70000", "1.5")
+		}
+	}
+	if r.Chance(1, 4) {
+		switch {
+		case k == "s":
+			f.opts = [][]string{{"a", "b", "alpha"}, {"on", "yes"}, {"12", "7"}}[r.Intn(3)]
+		case k == "b":
+			f.opts = [][]string{{"true"}, {"true", "false"}, {"1"}}[r.Intn(3)]
+		default:
+			f.opts = [][]string{{"1", "7", "42"}, {"0", "100", "300"}, {"1.5", "7"}}[r.Intn(3)]
+		}
+	}
+	if (numeric && r.Chance(1, 3)) || r.Chance(1, 20) {
+		f.rng = r.PickS("[0:100]", "(0:100)", "[1:]", "[:7]", "(-1:42]", "[0.5:99.99)", "[7:7]", "(:300)", "[-128:127]")
+	}
+	if r.Chance(1, 4) && k != "i64" {
+		f.env = r.PickS("C17EUNSET", "C17E_"+r.PickS(c17EnvVals...), "C17E_"+r.PickS(c17EnvVals...))
+	}
+	if r.Chance(1, 6) {
+		f.str = true
+	}
 }
 
 func (f *c17Field) tagKey() string {
@@ -898,13 +1077,145 @@ func (g *c17Gen) structEntries(t *c17Ty, d *c17Doc, mut int, nulls bool) {
 		if r.Intn(100) < drop {
 			continue
 		}
-		d.keys = append(d.keys, f.tagKey())
+		key := f.tagKey()
+		if g.mode.lowerKeys && r.Chance(5, 6) {
+			key = strings.ToLower(key)
+		}
+		var val *c17Doc
 		if nulls && r.Chance(1, 12) {
-			d.vals = append(d.vals, &c17Doc{kind: "null"})
+			val = &c17Doc{kind: "null"}
 		} else {
-			d.vals = append(d.vals, g.docFor(f.ty, mut, nulls))
+			val = g.docFor(f.ty, mut, nulls)
+		}
+		if len(f.opts) > 0 && val.kind != "null" && r.Chance(2, 3) {
+			o := f.opts[r.Intn(len(f.opts))]
+			bk := f.ty
+			if bk.kind == "*" {
+				bk = bk.elem
+			}
+			switch {
+			case bk.kind == "s" || f.str:
+				val = &c17Doc{kind: "str", lit: o}
+			case bk.kind == "b":
+				val = &c17Doc{kind: "bool", b: o == "true" || o == "1"}
+			default:
+				val = &c17Doc{kind: "num", lit: o}
+			}
+		} else if f.str && val.kind == "num" && r.Chance(2, 3) {
+			val = &c17Doc{kind: "str", lit: val.lit}
+		}
+		if st := c17StructOf(f.ty); st != nil && val.kind == "obj" {
+			// a field of the inner struct that inherits: sometimes only the enclosing level has its value
+			for k := range st.fields {
+				inner := &st.fields[k]
+				if inner.inherit && !inner.embedded && !strings.Contains(inner.tagKey(), ".") && r.Chance(1, 2) &&
+					!c17FoldClash(t, d, inner.tagKey()) {
+					for q, kk := range val.keys {
+						if kk == inner.tagKey() {
+							c17PutNested(d, []string{kk}, val.vals[q])
+							if r.Chance(2, 3) {
+								val.keys = append(val.keys[:q:q], val.keys[q+1:]...)
+								val.vals = append(val.vals[:q:q], val.vals[q+1:]...)
+							}
+							break
+						}
+					}
+				}
+			}
+		}
+		if g.mode.strScalars && r.Chance(1, 2) {
+			switch val.kind {
+			case "num":
+				val = &c17Doc{kind: "str", lit: val.lit}
+			case "bool":
+				val = &c17Doc{kind: "str", lit: r.PickS(strconv.FormatBool(val.b), strings.ToUpper(strconv.FormatBool(val.b)), "1", "0")}
+			}
+		}
+		if g.mode.wrapArr && r.Chance(1, 2) {
+			switch r.Intn(8) {
+			case 0:
+				val = &c17Doc{kind: "arr"}
+			case 1, 2:
+				val = &c17Doc{kind: "arr", arr: []*c17Doc{val, g.wrongScalar()}}
+			default:
+				val = &c17Doc{kind: "arr", arr: []*c17Doc{val}}
+			}
+		}
+		if strings.Contains(key, ".") && r.Intn(100) >= g.mode.dotLiteral {
+			segs := strings.FieldsFunc(key, func(c rune) bool { return c == '.' })
+			if len(segs) >= 2 && r.Chance(1, 6) {
+				// the last segment is also looked up in the enclosing levels: leave it outside of the group
+				c17PutNested(d, segs[:len(segs)-1], nil)
+				c17PutNested(d, segs[len(segs)-1:], val)
+			} else if len(segs) >= 1 {
+				c17PutNested(d, segs, val)
+			}
+			continue
+		}
+		c17PutNested(d, []string{key}, val)
+	}
+}
+
+// c17FoldClash: the object d (being built for struct t) would get two keys equal up to case, or a key that names
+// another field of t up to case.
+func c17FoldClash(t *c17Ty, d *c17Doc, key string) bool {
+	for _, k := range d.keys {
+		if k != key && strings.EqualFold(k, key) {
+			return true
 		}
 	}
+	var walk func(t *c17Ty) bool
+	walk = func(t *c17Ty) bool {
+		for i := range t.fields {
+			f := &t.fields[i]
+			if f.embedded {
+				if walk(f.ty) {
+					return true
+				}
+			} else if strings.EqualFold(f.tagKey(), key) || strings.EqualFold(strings.SplitN(f.tagKey(), ".", 2)[0], key) {
+				return true
+			}
+		}
+		return false
+	}
+	return walk(t)
+}
+
+func c17StructOf(t *c17Ty) *c17Ty {
+	if t.kind == "*" {
+		t = t.elem
+	}
+	if t.kind == "{" {
+		return t
+	}
+	return nil
+}
+
+// c17PutNested stores val under the path segs inside the object d (objects are created on the way; val == nil only
+// creates the path); an entry that already exists is kept.
+func c17PutNested(d *c17Doc, segs []string, val *c17Doc) {
+	for i, k := range d.keys {
+		if k == segs[0] {
+			if len(segs) > 1 && d.vals[i].kind == "obj" {
+				c17PutNested(d.vals[i], segs[1:], val)
+			} else if len(segs) == 1 && val == nil {
+				return
+			}
+			return
+		}
+	}
+	if len(segs) == 1 {
+		if val == nil {
+			val = &c17Doc{kind: "obj"}
+		}
+		d.keys = append(d.keys, segs[0])
+		d.vals = append(d.vals, val)
+		return
+	}
+	sub := &c17Doc{kind: "obj"}
+	d.keys = append(d.keys, segs[0])
+	d.vals = append(d.vals, sub)
+	c17PutNested(sub, segs[1:], val)
 }
 
 func c17Recase(r *verifh.Rng, k string) string {
@@ -977,15 +1288,84 @@ func (g *c17Gen) recase(t *c17Ty, d *c17Doc) *c17Doc {
 	return d
 }
 
+var c17Exts = []string{".json", ".yaml", ".yml", ".toml", ".JSON", ".Yml", ".TOML", ".YAML", ".txt", ".jsn", ".Json5"}
+
+// collide duplicates one or two struct-field entries of the top-level object (or of a nested struct object) under a
+// key that differs only in case, with another value: which one is loaded must not depend on Go's map order.
+func (g *c17Gen) collide(t *c17Ty, d *c17Doc) bool {
+	r := g.r
+	if t.kind != "{" || d.kind != "obj" || len(d.keys) == 0 {
+		return false
+	}
+	done := false
+	n := len(d.keys)
+	for i := 0; i < n; i++ {
+		k := d.keys[i]
+		var ft *c17Ty
+		for q := range t.fields {
+			if !t.fields[q].embedded && strings.EqualFold(t.fields[q].tagKey(), k) {
+				ft = t.fields[q].ty
+			}
+		}
+		if ft == nil {
+			continue
+		}
+		if st := c17StructOf(ft); st != nil && r.Chance(1, 3) && g.collide(st, d.vals[i]) {
+			done = true
+			continue
+		}
+		if r.Chance(1, 2) || (!done && i == n-1) {
+			for tries := 0; tries < 4; tries++ {
+				k2 := c17Recase(r, k)
+				dup := false
+				for _, kk := range d.keys {
+					if kk == k2 {
+						dup = true
+					}
+				}
+				if dup {
+					continue
+				}
+				var v2 *c17Doc
+				if r.Chance(1, 4) {
+					v2 = g.wrongScalar()
+				} else {
+					v2 = g.docFor(ft, 0, false)
+				}
+				d.keys = append(d.keys, k2)
+				d.vals = append(d.vals, v2)
+				done = true
+				break
+			}
+		}
+	}
+	return done
+}
+
+// dollar puts references to environment variables into some string values (conf.Load expands them only with UseEnv).
+func (g *c17Gen) dollar(d *c17Doc) {
+	switch d.kind {
+	case "str":
+		if g.r.Chance(2, 3) {
+			d.lit = g.r.PickS("${C17V}", "a${C17V}b", "${C17UNSET}x", "$C17V", "${C17V}${C17V}")
+		}
+	case "arr":
+		for _, x := range d.arr {
+			g.dollar(x)
+		}
+	case "obj":
+		for _, x := range d.vals {
+			g.dollar(x)
+		}
+	}
+}
+
 func c17GenSections(r *verifh.Rng) []verifh.Section {
 	var secs []verifh.Section
-	strict := 0
-	if os.Getenv("VERIF_C17_STRICT") == "1" {
-		strict = 1
-	}
 	nsec := verifh.Scale(160, 2500)
 	for i := 0; i < nsec; i++ {
-		g := &c17Gen{r: r.Fork(), plain: i%2 == 0}
+		g := &c17Gen{r: r.Fork(), plain: i%2 == 0, dots: i%3 == 1, ext: i%4 == 1 || i%4 == 3}
+		g.mode.dotLiteral = 15
 		depth := g.r.Pick(0, 1, 1, 2, 2, 3)
 		t := g.structTy(depth, false)
 		if i%8 == 7 {
@@ -997,13 +1377,19 @@ func c17GenSections(r *verifh.Rng) []verifh.Section {
 			}
 			m := &c17Ty{kind: "%", elem: el}
 			var ft *c17Ty
-			switch g.r.Intn(3) {
+			switch g.r.Intn(6) {
 			case 0:
 				ft = &c17Ty{kind: "@", elem: m}
 			case 1:
 				ft = &c17Ty{kind: "%", elem: m}
-			default:
+			case 2:
 				ft = &c17Ty{kind: "%", elem: &c17Ty{kind: "@", elem: m}}
+			case 3: // arrays of arrays of structs: the lowering has to descend through both levels
+				ft = &c17Ty{kind: "@", elem: &c17Ty{kind: "@", elem: el}}
+			case 4:
+				ft = &c17Ty{kind: "@", elem: &c17Ty{kind: "@", elem: &c17Ty{kind: "@", elem: inner}}}
+			default:
+				ft = &c17Ty{kind: "@", elem: &c17Ty{kind: "@", elem: m}}
 			}
 			t = &c17Ty{kind: "{", fields: []c17Field{{name: "Items", key: g.r.PickS("", "items", "Items"), ty: ft}}}
 		}
@@ -1022,10 +1408,55 @@ func c17GenSections(r *verifh.Rng) []verifh.Section {
 			}
 			ops = append(ops, fmt.Sprintf("load %d %s %s", g.r.Intn(16), d.enc(), d2))
 		}
-		secs = append(secs, verifh.Section{Cfg: fmt.Sprintf("kind=load strict=%d", strict), Ops: ops})
+		// documents with keys that collide up to case
+		for j := 0; j < 2; j++ {
+			d := g.docFor(t, 0, false)
+			for d.kind != "obj" {
+				d = g.docFor(t, 0, false)
+			}
+			if g.collide(t, d) {
+				ops = append(ops, fmt.Sprintf("cload %d %s", g.r.Intn(16), d.enc()))
+			}
+		}
+		// the file-level API
+		for j := 0; j < 2; j++ {
+			d := g.docFor(t, g.r.Pick(0, 0, 0, 10), false)
+			for d.kind != "obj" {
+				d = g.docFor(t, 0, false)
+			}
+			g.dollar(d)
+			ops = append(ops, fmt.Sprintf("fload %s %d %s %d %s", g.r.PickS(c17Exts...), g.r.Intn(2),
+				g.r.PickS("Load", "LoadConfig", "MustLoad"), g.r.Intn(16), d.enc()))
+		}
+		if g.r.Chance(1, 2) {
+			ops = append(ops, "filldef")
+		}
+		// the mapping-level entry points, with and without unmarshaller options
+		nm := g.r.Range(3, 6)
+		for j := 0; j < nm; j++ {
+			bits := g.r.Pick(0, 0, 1, 1, 2, 2, 4, 4, 8, 8, 3, 5, 9, 6, 10, 15)
+			g.mode = c17Mode{lowerKeys: bits&1 != 0, strScalars: bits&2 != 0, wrapArr: bits&4 != 0, dotLiteral: 15}
+			if bits&8 != 0 {
+				g.mode.dotLiteral = 70
+			}
+			if g.r.Chance(1, 8) { // a document shaped for other options than the ones given
+				g.mode = c17Mode{lowerKeys: g.r.Bool(), strScalars: g.r.Bool(), wrapArr: g.r.Bool(), dotLiteral: g.r.Pick(0, 50, 100)}
+			}
+			mut := g.r.Pick(0, 0, 0, 5, 10, 25)
+			nulls := g.r.Chance(1, 6)
+			d := g.docFor(t, mut, nulls)
+			for d.kind != "obj" {
+				d = g.docFor(t, 0, nulls)
+			}
+			ops = append(ops, fmt.Sprintf("munm %d %d %s", bits, g.r.Intn(16), d.enc()))
+		}
+		secs = append(secs, verifh.Section{Cfg: "kind=load", Ops: ops})
 	}
+	secs = append(secs, verifh.Section{Cfg: "kind=f32", Ops: []string{"f32 16777217.0000000005", "f32 33554435.000000001",
+		"f32 1.5", "f32 16777217", "f32 0.1", "f32 340282350000000000000000000000000000000",
+		"f32 340282360000000000000000000000000000000", "f32 -16777217.0000000005", "f32 1e39", "f32 8388609.50000000001"}})
 	// conf.Load: extension table and UseEnv
-	exts := []string{".json", ".yaml", ".yml", ".toml", ".JSON", ".Yml", ".TOML", ".YAML", ".txt", ".jsn", ".Json5"}
+	exts := c17Exts
 	nfile := verifh.Scale(6, 40)
 	for i := 0; i < nfile; i++ {
 		var ops []string
@@ -1034,7 +1465,7 @@ func c17GenSections(r *verifh.Rng) []verifh.Section {
 				r.PickS("pre-", "a", "x."), r.PickS("C17VAR", "C17_OTHER", "C17unset"), r.PickS("val", "V2", "x-y"),
 				r.PickS("-post", "z", ".k")))
 		}
-		secs = append(secs, verifh.Section{Cfg: "kind=file strict=0", Ops: ops})
+		secs = append(secs, verifh.Section{Cfg: "kind=file", Ops: ops})
 	}
 	return secs
 }
@@ -1057,6 +1488,21 @@ func TestVerifC17(t *testing.T) {
 					return "bad-op"
 				}
 				rt = ty.rtype()
+				// proc.Env caches the first read of a variable for the life of the process: the value of a
+				// variable is a function of its name (C17E_<value>; anything else is unset)
+				var setEnv func(t *c17Ty)
+				setEnv = func(x *c17Ty) {
+					if x.elem != nil {
+						setEnv(x.elem)
+					}
+					for i := range x.fields {
+						if e := x.fields[i].env; strings.HasPrefix(e, "C17E_") {
+							t.Setenv(e, e[5:])
+						}
+						setEnv(x.fields[i].ty)
+					}
+				}
+				setEnv(ty)
 				return "ok"
 			case "load":
 				if len(op) != 4 {
@@ -1103,6 +1549,151 @@ func TestVerifC17(t *testing.T) {
 				out = append(out, "U="+c17Decode(rt, func(v any) error { return mapping.UnmarshalJsonBytes([]byte(js), v) }))
 				out = append(out, "S="+c17Decode(rt, func(v any) error { return json.Unmarshal([]byte(js), v) }))
 				return strings.Join(out, " ")
+			case "munm":
+				if len(op) != 4 {
+					return "bad-op"
+				}
+				if rt == nil {
+					return "no-type"
+				}
+				bits, style := verifh.Atoi(op[1]), verifh.Atoi(op[2])
+				p := &c17Parser{s: op[3]}
+				d := p.doc()
+				if p.i != len(p.s) {
+					return "bad-op"
+				}
+				var opts []mapping.UnmarshalOption
+				if bits&1 != 0 {
+					opts = append(opts, mapping.WithCanonicalKeyFunc(strings.ToLower))
+				}
+				if bits&2 != 0 {
+					opts = append(opts, mapping.WithStringValues())
+				}
+				if bits&4 != 0 {
+					opts = append(opts, mapping.WithFromArray())
+				}
+				if bits&8 != 0 {
+					opts = append(opts, mapping.WithOpaqueKeys())
+				}
+				js, ys := d.renderJSON(style), d.renderYAML(style)
+				ts, tok := d.renderTOML(style)
+				rd := func(s string) io.Reader { return io.MultiReader(strings.NewReader(s[:len(s)/2]), strings.NewReader(s[len(s)/2:])) }
+				var out []string
+				out = append(out, "MJB="+c17Decode(rt, func(v any) error { return mapping.UnmarshalJsonBytes([]byte(js), v, opts...) }))
+				out = append(out, "MJR="+c17Decode(rt, func(v any) error { return mapping.UnmarshalJsonReader(rd(js), v, opts...) }))
+				out = append(out, "MYB="+c17Decode(rt, func(v any) error { return mapping.UnmarshalYamlBytes([]byte(ys), v, opts...) }))
+				out = append(out, "MYR="+c17Decode(rt, func(v any) error { return mapping.UnmarshalYamlReader(rd(ys), v, opts...) }))
+				if tok {
+					out = append(out, "MTB="+c17Decode(rt, func(v any) error { return mapping.UnmarshalTomlBytes([]byte(ts), v, opts...) }))
+					out = append(out, "MTR="+c17Decode(rt, func(v any) error { return mapping.UnmarshalTomlReader(rd(ts), v, opts...) }))
+				} else {
+					out = append(out, "MTB=skip", "MTR=skip")
+				}
+				if bits == 0 {
+					out = append(out, "S="+c17Decode(rt, func(v any) error { return json.Unmarshal([]byte(js), v) }))
+				}
+				return strings.Join(out, " ")
+			case "cload":
+				if len(op) != 3 {
+					return "bad-op"
+				}
+				if rt == nil {
+					return "no-type"
+				}
+				style := verifh.Atoi(op[1])
+				p := &c17Parser{s: op[2]}
+				d := p.doc()
+				if p.i != len(p.s) {
+					return "bad-op"
+				}
+				js, ys := d.renderJSON(style), d.renderYAML(style)
+				ts, tok := d.renderTOML(style)
+				many := func(f func(v any) error) string {
+					first := ""
+					for i := 0; i < 200; i++ {
+						res := c17Decode(rt, f)
+						if i == 0 {
+							first = res
+						} else if res != first {
+							return "nondet"
+						}
+					}
+					return "det:" + first
+				}
+				out := []string{
+					"CJ=" + many(func(v any) error { return LoadFromJsonBytes([]byte(js), v) }),
+					"CY=" + many(func(v any) error { return LoadFromYamlBytes([]byte(ys), v) }),
+				}
+				if tok {
+					out = append(out, "CT="+many(func(v any) error { return LoadFromTomlBytes([]byte(ts), v) }))
+				} else {
+					out = append(out, "CT=skip")
+				}
+				return strings.Join(out, " ")
+			case "f32":
+				if len(op) != 2 {
+					return "bad-op"
+				}
+				ft := reflect.StructOf([]reflect.StructField{{Name: "X", Type: reflect.TypeOf(float32(0)), Tag: `json:"x"`}})
+				js := `{"x":` + op[1] + `}`
+				return "U=" + c17Decode(ft, func(v any) error { return mapping.UnmarshalJsonBytes([]byte(js), v) }) +
+					" L=" + c17Decode(ft, func(v any) error { return LoadFromJsonBytes([]byte(js), v) }) +
+					" S=" + c17Decode(ft, func(v any) error { return json.Unmarshal([]byte(js), v) })
+			case "filldef":
+				if rt == nil {
+					return "no-type"
+				}
+				return c17Decode(rt, func(v any) error { return FillDefault(v) })
+			case "fload":
+				if len(op) != 6 {
+					return "bad-op"
+				}
+				if rt == nil {
+					return "no-type"
+				}
+				ext, useEnv, api, style := op[1], op[2] == "1", op[3], verifh.Atoi(op[4])
+				p := &c17Parser{s: op[5]}
+				d := p.doc()
+				if p.i != len(p.s) {
+					return "bad-op"
+				}
+				var content string
+				switch strings.ToLower(ext) {
+				case ".toml":
+					ts, tok := d.renderTOML(style)
+					if !tok {
+						return "skip"
+					}
+					content = ts
+				case ".yaml", ".yml":
+					content = d.renderYAML(style)
+				default:
+					content = d.renderJSON(style)
+				}
+				t.Setenv("C17V", "xv")
+				file := filepath.Join(t.TempDir(), "conf"+ext)
+				if err := os.WriteFile(file, []byte(content), 0o600); err != nil {
+					return "io-error"
+				}
+				var opts []Option
+				if useEnv {
+					opts = append(opts, UseEnv())
+				}
+				load := Load
+				if api == "LoadConfig" {
+					load = LoadConfig
+				}
+				res := c17Decode(rt, func(v any) error { return load(file, v, opts...) })
+				if api == "MustLoad" && strings.HasPrefix(res, "ok:") {
+					// MustLoad exits the process on an error: only called where Load succeeded
+					m := c17Decode(rt, func(v any) error { MustLoad(file, v, opts...); return nil })
+					if m == res {
+						res += " M=same"
+					} else {
+						res += " M=diff"
+					}
+				}
+				return res
 			case "file":
 				if len(op) != 7 {
 					return "bad-op"
